@@ -312,6 +312,25 @@ theorem C14_dir_denied (fs : FS) (alive zombie : Bool) :
   have ha := cfg_good_access
   simp [openFiles, openFilesBody, numFds, ioCounters, ioCountersBody, fileExc, wrap, wrapExc, ha.wrapPermAD]
 
+/-- **error contract of the three methods**, all states at once: whenever the specification
+    names the exception for a directory / file that cannot be opened (refused → AccessDenied; gone
+    process → NoSuchProcess; zombie → ZombieProcess), the three methods raise exactly that one -/
+theorem C14_error_contract (fs : FS) (alive zombie : Bool) (e : FileErr) (x : Exc)
+    (h : expectedOnError alive zombie e = some x) :
+    openFiles cfg fs { fdDir := .err e, alive := alive, zombie := zombie } = .exc x ∧
+    numFds cfg { fdDir := .err e, alive := alive, zombie := zombie } = .exc x ∧
+    ioCounters cfg alive (.err e) zombie = .exc x := by
+  have ha := cfg_good_access
+  cases e with
+  | denied =>
+    simp only [expectedOnError, Option.some.injEq] at h
+    subst h
+    exact C14_dir_denied fs alive zombie
+  | gone g =>
+    cases alive <;> cases zombie <;> cases g <;> simp [expectedOnError] at h <;> subst h <;>
+      simp [openFiles, openFilesBody, numFds, ioCounters, ioCountersBody, fileExc, goneExc, wrap, wrapExc,
+        ha.wrapZombieFirst]
+
 /-- a zombie is a process like any other for `open_files()`/`num_fds()`: the `zombie` flag of
     the world does not change the promised answer (stated through `C14_open_files_exact`, whose
     right-hand side does not mention it); here: a zombie whose table is empty -/
